@@ -87,6 +87,11 @@ CHECKS['C20'] = ('exploration', 'complete enumeration of the (operation, immedia
     'the operation must span at least two activations of the loop (whose FIFO order is monitored on every execution) or advance the clock, and every competitor that is queued at that moment must get a turn before it completes.',
     'Completeness of the table is by construction from the property text and the anchors; rows for a closed-and-empty stream and a free Lock are deliberately absent.',
     'DESIGN.md section 3 C20')
+CHECKS['C03'] = ('fault_enumeration', 'exhaustive fault injection (cancel at every activation boundary of every live task, swept until-interrupt/close) into the strided union corpus of all native program families plus a complete signal-race family; kernel-health monitors only',
+    'Every k-th program of the families of C01, C04-C14, C16 and the complete signal-race family (waits of 9 kinds inside 0-2 nested until blocks of 7 notification kinds) is executed fault-free and with one (thorough: two) injected cancel at every activation boundary of every live task and with every top-level task closed/interrupted at every queue position; '
+    'run() may only end with nothing or an exception object scenario code created, scenario code may only observe its own exceptions, a requested CancelTask of that very task, or the signal of a scope open in that activity, no internal assertion/attribute/coroutine-misuse error may appear, activations per time step are bounded, clock and FIFO monitors must be silent.',
+    'Monitors only (no model). Two open known findings (first() leaking its scope signal; closed task iterating an externally held interval()/delay() iterator).',
+    'DESIGN.md section 3 C03')
 PENDING = {}
 
 def main():
